@@ -235,13 +235,15 @@ impl<'a, P: ?Sized + PathImpl> PathMutImpl<'a, P> {
 				// - it is empty and followed by other segments: the path
 				//   would become absolute (if relative), or its beginning
 				//   `//` would be mistaken for an authority;
-				// - it contains a `:` and nothing precedes the relative path:
-				//   its beginning would be mistaken for a scheme.
+				// - it contains a `:` and nothing precedes the relative path
+				//   in the enclosing reference: its beginning would be
+				//   mistaken for a scheme.
 				let ambiguous = if segment.is_empty() {
 					count > 1 && (relative || !self.follows_authority)
 				} else {
 					relative
-						&& self.start == 0 && parse::first_segment_has_colon(segment.as_bytes())
+						&& self.start == 0 && !self.follows_authority
+						&& parse::first_segment_has_colon(segment.as_bytes())
 				};
 
 				if ambiguous {
